@@ -1250,6 +1250,10 @@ def check_C18(tier, seed):
             qd["declare"] = list(range(len(qd["vars"]), 0, -1))
             qs.append(qd)
             evs.append(drain_ev(len(qs), eqto=1))
+            # the shorthand an(x, c...) / an([x, y], c...) instead of an(entity(...)) / an(set_of(...))
+            if all(s["k"] in ("var", "attr") for s in p["sel"]) and p["cond"]["k"] != "true":
+                qs.append(mk_query(p, doms, short=True))
+                evs.append(drain_ev(len(qs), eqto=1))
             # permuted selection (judged against the denotation only: the columns differ)
             if p["desc"] == "set_of" and len(p["sel"]) > 1:
                 qs.append(mk_query(dict(p, sel=list(reversed(p["sel"]))), doms))
